@@ -180,6 +180,26 @@ def constant_casts():
         _t("export function f(int a) -> uint3 { return uint3(a, -7, -2147483648); }", "negative literals in uint constructor", ["narrow"]),
         _t("uint last;\nfunction g(uint p) -> uint { last = p; return p; }\nexport function f(int a) -> uint { return g(-3); }", "negative literal to uint parameter stored in a global", ["narrow", "global"]),
     ]
+    # --- a declaration between the store and the load: the name is declared again (sibling scopes, loop bodies), which
+    #     re-initialises the variable on the VM; a store before the declaration must not be forwarded to a load after it
+    for T, zero, v in (("int", "0", "a"), ("float", "0.0", "b")):
+        one = "1" if T == "int" else "1.0"
+        out += [
+            _t(f"export function f(int a, float b) -> {T} {{ {T} r; {{ {T} t; t = {v}; }} {{ {T} t; r = t; }} return r; }}", f"{T}: store, sibling redeclaration, load"),
+            _t(f"export function f(int a, float b) -> {T} {{ {T} r; {{ {T} t = {v}; }} {{ {T} t; r = t + {one}; }} return r; }}", f"{T}: initialiser, sibling redeclaration, load"),
+            _t(f"export function f(int a, float b) -> {T} {{ {T} r = {zero}; {{ {T} t; t = {v}; ++t; }} {{ {T} t; t += {one}; r = t; }} return r * 2; }}", f"{T}: affix store, sibling redeclaration, compound"),
+            _t(f"export function f(int a, float b) -> {T} {{ {T} r = {zero}; {{ {T} t; t = {v}; }} {{ {T} t = {one}; r = t; }} {{ {T} t; r += t; }} return r; }}", f"{T}: three siblings, middle initialised"),
+            _t(f"export function f(int a, float b) -> {T} {{ {T} r = {zero}; {T} t; t = {v}; {{ {T} u; u = t; }} {{ {T} u; r = u + t; }} return r; }}", f"{T}: outer store survives, inner redeclared"),
+            _t(f"export function f(int a, float b, int n) -> {T} {{ {T} r = {zero}; for (int i = 0; i < n; ++i) {{ {T} t; r += t; t = {v}; }} return r; }}", f"{T}: store at the end of a loop body, redeclared at its start", ["loop"], {"n": (0, 3)}),
+            _t(f"export function f(int a, float b) -> {T} {{ {T} r = {zero}; if (a > 0) {{ {T} t; t = {v}; }} {{ {T} t; r = t; }} return r; }}", f"{T}: store in a branch, sibling redeclaration, load"),
+            _t(f"{T} g;\nexport function f(int a, float b) -> {T} {{ {{ {T} g2; g2 = {v}; g = g2; }} {{ {T} g2; g += g2; }} return g; }}", f"{T}: store to local and global, local redeclared"),
+        ]
+    S = "struct S { int i; float f; }\n"
+    out += [
+        _t("export function f(float3 a) -> float3 { float3 r; { float3 t; t = a; } { float3 t; r = t; } return r; }", "vector: store, sibling redeclaration, load"),
+        _t("export function f(int a, int i) -> int { int r; { int[2] t; t[i] = a; } { int[2] t; r = t[i]; } return r; }", "array: element store, sibling redeclaration, element load", bounds={"i": (0, 1)}),
+        _t(S + "export function f(int a) -> int { int r; { S t; t.i = a; } { S t; r = t.i; } return r; }", "struct: member store, sibling redeclaration, member load"),
+    ]
     return out
 
 
